@@ -338,9 +338,13 @@ Proof.
 Qed.
 
 (* tv_diffeq for the filter handed to the code generator (a number g as gain) *)
-Theorem diffeq_generated S (f : tfilt) g zero p mem fuel :
+Theorem diffeq_generated_r S (f : tfilt) g zero p mem fuel :
   keys_ok (t_num f) -> keys_ok (t_den f) -> In (0%Z, CNum g) (t_den f) -> g <> 0 ->
-  tcodegen f zero = Ok (TGen p) -> wf_prog f p = true ->
+  tcodegen f zero = Ok (TGen p) ->
+  (forall memory, round_spec S (stream_iters (t_num f)) (stream_iters (t_den f)) p fuel 0
+             (unpack (p_mvars (tp_prog p)) memory empty_env)
+             (assign_all (p_dvars (tp_prog p)) zero empty_env)
+             (run_tv S (TGen p) f memory zero fuel)) ->
   let lm := t_mem_size f in
   let ys := yields (run_tv S (TGen p) f (normalise_memory lm zero mem) zero fuel) in
   forall j, (j < length ys)%nat ->
@@ -348,9 +352,9 @@ Theorem diffeq_generated S (f : tfilt) g zero p mem fuel :
     = psum (vtab (snapshot S j) (t_num f)) (fun k => xrel S 0 (fun _ => zero) (Z.of_nat j - k))
       - psum (feedback (vtab (snapshot S j) (t_den f))) (fun k => ysig (past lm zero mem) ys (Z.of_nat j - k)).
 Proof.
-  intros Kn Kd H0 Hg Hc Hwf lm ys j Hj.
+  intros Kn Kd H0 Hg Hc Hround lm ys j Hj.
   pose proof (tcodegen_prog f zero p Hc) as Hp.
-  pose proof (run_tv_wf S f p (normalise_memory lm zero mem) zero fuel Hwf) as Hr.
+  pose proof (Hround (normalise_memory lm zero mem)) as Hr.
   set (ld := (tdense_len (t_num f) - 1)%nat).
   assert (lm = (tdense_len (t_den f) - 1)%nat) as Elm by reflexivity.
   pose proof (round_diffeq S (stream_iters (t_num f)) (stream_iters (t_den f)) p (t_num f) (t_den f) g lm ld) as L.
@@ -372,4 +376,19 @@ Proof.
   - intros k Hk. rewrite Hmv, unpack_spec by (try apply normalise_memory_length; lia).
     apply normalise_memory_past. exact Hk.
   - intros k Hk. rewrite Hdv. apply assign_all_seq. exact Hk.
+Qed.
+
+Theorem diffeq_generated S (f : tfilt) g zero p mem fuel :
+  keys_ok (t_num f) -> keys_ok (t_den f) -> In (0%Z, CNum g) (t_den f) -> g <> 0 ->
+  tcodegen f zero = Ok (TGen p) -> wf_prog f p = true ->
+  let lm := t_mem_size f in
+  let ys := yields (run_tv S (TGen p) f (normalise_memory lm zero mem) zero fuel) in
+  forall j, (j < length ys)%nat ->
+    g * ysig (past lm zero mem) ys (Z.of_nat j)
+    = psum (vtab (snapshot S j) (t_num f)) (fun k => xrel S 0 (fun _ => zero) (Z.of_nat j - k))
+      - psum (feedback (vtab (snapshot S j) (t_den f))) (fun k => ysig (past lm zero mem) ys (Z.of_nat j - k)).
+Proof.
+  intros Kn Kd H0 Hg Hc Hwf.
+  apply (diffeq_generated_r S f g zero p mem fuel Kn Kd H0 Hg Hc).
+  intro memory. exact (run_tv_wf S f p memory zero fuel Hwf).
 Qed.
